@@ -414,7 +414,8 @@ class SparselyBin(Factory, Container):
         # used below. bit expensive, so do here once
         n_dim = self.n_dim
 
-        if n_dim == 1 and all_weights_one and isinstance(self.value, Count):
+        # (a Count with a weight transform needs the weights row by row: transform(c) is c * transform(1) only if linear)
+        if n_dim == 1 and all_weights_one and isinstance(self.value, Count) and self.value.transform is identity:
             # special case: filling single array where all weights are 1
             # (use fast np.unique that returns counts)
             uniques, counts = np.unique(selected, return_counts=True)
